@@ -35,6 +35,7 @@ def run(repo, filt='', seed=0, timeout=1500):
         p = subprocess.run(cmd, cwd=dst, env=env, capture_output=True, text=True, timeout=timeout)
         out = p.stdout + '\n' + p.stderr
         excluded = []
+        first_errors = ''
         if 'could not compile' in out and 'test result:' not in out:
             # a driver that no longer compiles against this tree (API changed by the edit under test, or a driver under
             # construction) must not take the others with it: drop the offending driver modules and retry once
@@ -56,6 +57,7 @@ def run(repo, filt='', seed=0, timeout=1500):
                         bad.append(f[:-3])
                 open(mainp, 'w').write(m)
                 excluded = bad
+                first_errors = '\n'.join(re.findall(r'(?m)^error.*(?:\n.*){0,6}', out)[:3])[:1500]
                 p = subprocess.run(cmd, cwd=dst, env=env, capture_output=True, text=True, timeout=timeout)
                 out = p.stdout + '\n' + p.stderr
         wits = []
@@ -72,7 +74,7 @@ def run(repo, filt='', seed=0, timeout=1500):
                          'got': 'the process was killed (' + (re.search(r'overflowed its stack|SIGABRT|SIGSEGV|signal: \d+', out).group(0)) + ')', 'want': 'layout or error'})
         cases = sum(int(m.group(1)) for m in re.finditer(r'CASES \S+ (\d+)', out))
         built = 'test result:' in out or bool(wits)
-        return {'ok': built, 'witnesses': wits, 'cases': cases, 'log': out[-3000:], 'wall': time.time() - t0, 'excluded_drivers': excluded,
+        return {'ok': built, 'witnesses': wits, 'cases': cases, 'log': out[-3000:], 'wall': time.time() - t0, 'excluded_drivers': excluded, 'excluded_because': first_errors,
                 'cmd': 'cargo test --offline --test vx_witness -- ' + filt + ' (scratch copy of the working tree + /verif/witness)'}
     except subprocess.TimeoutExpired:
         return {'ok': False, 'witnesses': [], 'cases': 0, 'log': 'timeout', 'wall': time.time() - t0, 'cmd': ''}
@@ -81,7 +83,7 @@ def run(repo, filt='', seed=0, timeout=1500):
 
 
 # drivers of other properties that also decide sentences of this one (they emit witnesses under both ids)
-RELATED = {'C08': ['c10_push', 'c10_dis'], 'C05': ['c08_'], 'C03': ['c14_named', 'c14_random'], 'C01': ['c10_dis', 'c19_', 'c06_']}
+RELATED = {'C10': ['c08_'], 'C08': ['c10_push', 'c10_dis'], 'C05': ['c08_'], 'C03': ['c14_named', 'c14_random'], 'C01': ['c10_dis', 'c19_', 'c06_']}
 
 
 def for_property(pid, repo, seed=0):
